@@ -1,0 +1,40 @@
+//go:build verif
+
+package x509
+
+// ZVC33SigAlgDetail is one row of signatureAlgorithmDetails (algo, oid).
+type ZVC33SigAlgDetail struct {
+	Algo int
+	OID  []int
+}
+
+// ZVC33SignatureAlgorithmDetails returns the (algo, oid) columns of
+// signatureAlgorithmDetails in table order (verification hook, C33).
+func ZVC33SignatureAlgorithmDetails() []ZVC33SigAlgDetail {
+	var out []ZVC33SigAlgDetail
+	for _, d := range signatureAlgorithmDetails {
+		out = append(out, ZVC33SigAlgDetail{Algo: int(d.algo), OID: append([]int{}, d.oid...)})
+	}
+	return out
+}
+
+// ZVC33OIDSignatureRSAPSS returns oidSignatureRSAPSS.
+func ZVC33OIDSignatureRSAPSS() []int { return append([]int{}, oidSignatureRSAPSS...) }
+
+// ZVC33AlgoName returns a copy of algoName (index = SignatureAlgorithm).
+func ZVC33AlgoName() []string { return append([]string{}, algoName[:]...) }
+
+// ZVC33KeyAlgorithmNames returns a copy of keyAlgorithmNames (index = PublicKeyAlgorithm).
+func ZVC33KeyAlgorithmNames() []string { return append([]string{}, keyAlgorithmNames...) }
+
+// ZVC33PublicKeyNameToAlgorithm returns a copy of publicKeyNameToAlgorithm.
+func ZVC33PublicKeyNameToAlgorithm() map[string]int {
+	out := map[string]int{}
+	for k, v := range publicKeyNameToAlgorithm {
+		out[k] = int(v)
+	}
+	return out
+}
+
+// ZVC33TotalKeyAlgorithms returns the constant total_key_algorithms used by PublicKeyAlgorithm.String.
+func ZVC33TotalKeyAlgorithms() int { return int(total_key_algorithms) }
